@@ -150,16 +150,16 @@ PROPS["C12"].update(
     technique="Coq induction over the add sequence (model), extracted-model differential correspondence",
 )
 
-reg("C10",
+reg("C10", needs_cli=True,
     rule="a case = one result multiset (0..2000 results, every 97th index 2*10^4 / 10^5 in thorough; equal, "
          "increasing, reversed, random timestamps; zero/small/huge latencies; 14 status codes; 7 error texts) "
          "in one of 4 orders (in order, reversed with Close before anything and after every Add, two shuffles "
-         "one with Close every k adds), observed through the JSON report of the real reporter; non-trivial = "
+         "one with Close every k adds), observed through the JSON report of the real reporter and the status-code line of one text reporter used after every Close; every third multiset also as a gob file in shuffled order through `vegeta report -type json|text`; non-trivial = "
          "at least 2 results; distinct = distinct wire content",
     clauses={1: "request count", 2: "status-code histogram", 3: "byte totals", 4: "latency total",
              5: "latency max", 6: "latency min", 7: "earliest", 8: "latest", 9: "end", 10: "duration",
              11: "wait", 12: "set of distinct error texts", 13: "rate", 14: "throughput", 15: "success ratio",
-             16: "means (bytes in/out, latency)"},
+             16: "means (bytes in/out, latency)", 17: "the text report (one reporter used after every Close, or the report command) lists other status codes / counts than the histogram"},
     assumptions=["float fields (rate, throughput, success, byte means) are compared with the model's exact rational within a relative guard band of 2^-40; the latency mean within 1 ns + 2^-40",
                  "domain: non-negative latencies/byte counts, sums below 2^64 / 2^63, timestamps 1970..2191 (so the zero time.Time is never a data value)",
                  "percentiles are decided by C11, not here", "encoding/json and time.Time JSON formatting are used to read the report back"],
@@ -249,6 +249,7 @@ reg("C19",
              81: "the attack command does not refuse exactly the unlimited rates given without -max-workers", 82: "an attack command that was not refused did not run",
              83: "-dns-ttl through the command: -1 still caches, or 0 / a duration looks the name up for every connection",
              43: "-max-body value differs from the documented meaning", 53: "-dns-ttl value differs from the documented meaning",
+             64: "the attack command with -connect-to (and any -keepalive / -dns-ttl setting) did not send every request to the replacement address",
              62: "well-formed -connect-to rejected", 63: "-connect-to mapping differs from the documented one", 73: "-resolvers addresses not normalised as documented"},
     diffs={10: "rateFlag.Set accepts a value the model rejects", 11: "rateFlag.Set rejects a value the model accepts", 12: "stored frequency differs from the model's", 13: "stored period differs from the model's", 14: "unlimited-rate guard differs", 15: "the printed form of the rate differs from the model's (Itoa, '/', the Duration.String model of Base/DurString.v)"},
     assumptions=["time.ParseDuration, strconv.Atoi, datasize.UnmarshalText, net.SplitHostPort, net.ParseIP are library code: reference models in Base/Duration.v, Base/Str.v, Model/Flags.v, sampled on every run",
